@@ -203,11 +203,7 @@ func (a *TCPAllocation) DialTCPWithConn(conn net.Conn, _ string, rAddr *net.TCPA
 	var err error
 
 	// Check if we have a permission for the destination IP addr
-	perm, ok := a.permMap.find(rAddr)
-	if !ok {
-		perm = &permission{}
-		a.permMap.insert(rAddr, perm)
-	}
+	perm := a.permMap.findOrCreate(rAddr)
 
 	for range maxRetryAttempts {
 		if err = a.createPermission(perm, rAddr); !errors.Is(err, errTryAgain) {
